@@ -36,7 +36,7 @@ OUTSIDE = ["n beyond the bound", "out-of-range cell numbers", "join sublists lon
 
 def bounds(tier):
     if tier == "quick":
-        return {"n": [1, 2, 3, 4], "states": "all canonical partitions of all subsets of the n cells x deleted flag x {dense, csr}",
+        return {"n": [1, 2, 3, 4], "large_states": "n=9,10: singletons and one mixed partition, removing / merging away 4..n cells (prefix, suffix, seeded subsets)", "states": "all canonical partitions of all subsets of the n cells x deleted flag x {dense, csr}",
                 "merge_args": "n<=3: all families of <=2 sublists of <=2 members (ordered, repeats allowed) + all single sublists of 3; "
                               "n=4: all single sublists of <=2 members and all pairs of 2-member sublists",
                 "delete_args": "all ordered lists of <=2 cells", "cut_and_merge": "n=3 full + path pattern, 4 limit combinations, symbolic energies"}
@@ -121,12 +121,11 @@ def _label_closure(arg):
 
 
 def acceptable_merges(P, arg):
-    """The statement leaves one case open: sublists chained only through a cell that is no longer present
-    ([[0,1],[1,2]] with cell 1 deleted).  'absent cells are ignored' read before or after the transitive closure gives
-    two answers there; both are accepted.  Everywhere else the two readings coincide."""
-    a = spec_merge(P, arg)
-    b = spec_merge(P, _label_closure(arg))
-    return [a] if a == b else [a, b]
+    """The join lists are first closed transitively over cell LABELS -- the documented contract of merge_sublists /
+    merge_matrix_cells ("if [a, c] and [c, b] -> [a, b, c]") and what 'the same for any order or redundancy of the join lists'
+    demands: [[0,2],[2,4]] and [[0,2,4]] are two spellings of one join -- and only then are cells that are no longer present
+    ignored.  (Reading 'ignored' before the closure would make the result depend on the spelling when the shared cell is gone.)"""
+    return [spec_merge(P, _label_closure(arg))]
 
 
 def spec_delete(P, arg):
@@ -152,6 +151,21 @@ def shapes(tier, seed):
         for P, deleted in all_states(n):
             for sparse in (False, True):
                 out.append({"kind": "step", "n": n, "P": P, "deleted": deleted, "sparse": sparse})
+    # larger states with explicit operations: removing / merging away most of the rows (row selection must stay in index order)
+    rng = np.random.default_rng(seed)
+    for n in (9, 10):
+        for P, deleted in (([[i] for i in range(n)], False), (canon([[0, 1], [2], [3, 4, 5]] + [[i] for i in range(6, n)]), True)):
+            present = [c for g in P for c in g]
+            ops = []
+            for k in range(4, len(present) + 1):
+                ops.append(["delete", present[:k]])
+                ops.append(["delete", present[-k:]])
+                ops.append(["delete", [int(x) for x in rng.choice(present, size=k, replace=False)]])
+                ops.append(["merge", [present[:k]]])
+                ops.append(["merge", [[int(x) for x in rng.choice(present, size=k, replace=False)]]])
+                ops.append(["merge", [present[: k // 2], present[k // 2: k]]])
+            for sparse in (False, True):
+                out.append({"kind": "step", "n": n, "P": P, "deleted": deleted, "sparse": sparse, "ops": ops})
     pats = {3: [[(0, 1), (1, 2), (0, 2)], [(0, 1), (1, 2)]]}
     if tier == "thorough":
         pats[4] = [[(0, 1), (1, 2), (2, 3)], [(0, 1), (0, 2), (0, 3)], [(0, 1), (1, 2), (2, 3), (0, 3)], [(0, 1), (0, 2), (0, 3), (1, 2), (1, 3), (2, 3)]]
@@ -188,8 +202,12 @@ def run_shape(shape):
     cur = lump(M0, P, deleted, z3.RealVal(0), _zsum)
     proxy = NPProxy()
     eng_stats = {}
-    ops = [("merge", a, use_none) for a in merge_args(n, tier) for use_none in ((False, True) if (len(P) == n and all(len(g) == 1 for g in P)) else (False,))]
-    ops += [("delete", a, use_none) for a in delete_args(n, tier) for use_none in ((False, True) if (len(P) == n and all(len(g) == 1 for g in P)) else (False,))]
+    nones = (False, True) if (len(P) == n and all(len(g) == 1 for g in P)) else (False,)
+    if "ops" in shape:
+        ops = [(o_, tuple(tuple(x) for x in a) if o_ == "merge" else tuple(a), un) for o_, a in shape["ops"] for un in nones]
+    else:
+        ops = [("merge", a, use_none) for a in merge_args(n, tier) for use_none in nones]
+        ops += [("delete", a, use_none) for a in delete_args(n, tier) for use_none in nones]
     nviol = 0
     for op, arg, use_none in ops:
         if nviol >= 6:
@@ -471,7 +489,7 @@ def selftest(seed):
     n = sparse_selftest(seed, rounds=6)
     # the specification helpers against hand-computed cases from the property statement
     assert spec_merge([[0], [1, 2], [3]], [(0, 1), (2, 3)]) == [[0, 1, 2, 3]]
-    assert acceptable_merges([[0], [2]], [(0, 1), (1, 2)]) == [[[0], [2]], [[0, 2]]]
+    assert acceptable_merges([[0], [2]], [(0, 1), (1, 2)]) == [[[0, 2]]]
     assert acceptable_merges([[0], [1, 2], [3]], [(0, 1), (2, 3)]) == [[[0, 1, 2, 3]]]
     assert spec_delete([[0, 1], [2], [3]], [1, 5]) == [[2], [3]]
     return n + 3
